@@ -1384,7 +1384,7 @@ func (vm *VM) run() (Addr, bool) {
 							vm.setFromReflectValue(b, iter.Key())
 						}
 						if c != 0 {
-							vm.setFromReflectValue(c, iter.Value())
+							vm.setFromReflectValue(c, addressableCopy(iter.Value()))
 						}
 						vm.pc = bodyAddress
 						addr, breakOut := vm.run()
@@ -1415,7 +1415,7 @@ func (vm *VM) run() (Addr, bool) {
 							break
 						}
 						if b != 0 {
-							vm.setFromReflectValue(b, u)
+							vm.setFromReflectValue(b, addressableCopy(u))
 						}
 						vm.pc = bodyAddress
 						addr, breakOut := vm.run()
@@ -1448,7 +1448,7 @@ func (vm *VM) run() (Addr, bool) {
 							vm.setInt(b, int64(i))
 						}
 						if c != 0 {
-							vm.setFromReflectValue(c, v.Index(i))
+							vm.setFromReflectValue(c, addressableCopy(v.Index(i)))
 						}
 						vm.pc = bodyAddress
 						addr, breakOut := vm.run()
